@@ -70,8 +70,9 @@ def perturbations(g, rng, ir, choose=None):
     for m_ in mods:
         ep = m_.entry_point
         if ep is not None and ep.module is not m_:
-            P.append(("entry-block-in-another-module.size", setattr_(ep, "size", ep.size + 1)))
-            P.append(("entry-block-in-another-module.offset", setattr_(ep, "offset", ep.offset + 1)))
+            top = (1 << 64) - 1          # (the fields are uint64: stay inside, a catalogue entry must leave the IR savable)
+            P.append(("entry-block-in-another-module.size", setattr_(ep, "size", ep.size + 1 if ep.size < top else ep.size - 1)))
+            P.append(("entry-block-in-another-module.offset", setattr_(ep, "offset", ep.offset + 1 if ep.offset < top else ep.offset - 1)))
             P.append(("entry-block-in-another-module.decode_mode",
                       setattr_(ep, "decode_mode", [d for d in g.CodeBlock.DecodeMode if d != ep.decode_mode][0])))
             break
